@@ -315,7 +315,7 @@ def run_history(root, part, rng, tier):
             min(stats["cancel"], 3), min(stats["cancel_refused_foreign"], 2), min(stats["cancel_unknown"], 2),
             min(stats["listings_judged"], 3), min(stats["foreign_listing_requests"], 2), meta["lowbits"]))
         for k, d in fails:
-            part.violation(k, {"input": sc.text(), "detail": d, "meta": meta,
+            part.violation(k, {"input": sc.text(), "detail": d, "meta": meta, "ops": ops, "t_end": t_end,
                                "summary": "%s (history of %d requests, UIDs sharing %d low key bits)" % (d, meta["nops"], meta["lowbits"])})
         if not fails and len(part.samples) < 2 and stats["refused_foreign"] and stats["replace"] and stats["listings_judged"]:
             part.sample({"requests": meta["nops"], "shared_low_bits": meta["lowbits"], **{k: stats[k] for k in
@@ -359,7 +359,22 @@ def main(tier):
 
 
 def replay(path):
+    """re-run the recorded history on the current tree and judge it again with the map model"""
     w = json.load(open(path))
-    print(w.get("input", "")[:3000])
-    print(w.get("detail"))
-    return 1
+    root = build_or_die()
+    print("recorded:", w.get("key"), "|", (w.get("detail") or w.get("summary") or "")[:300])
+    events, out, err, rc = sched.run_script(root, w["input"], iter_log=False, timeout=300)
+    if events is None or rc != 0 or not any(e[0] == "END" for e in events):
+        print("now: the daemon harness dies (rc %s): %s" % (rc, err[-400:]))
+        return 1
+    if "ops" not in w:
+        return 0 if w.get("key", "").startswith("daemon-crash") else 1
+    fails = []
+    stats = dict.fromkeys(["create", "replace", "refused_foreign", "refused_claim", "cancel", "cancel_refused_foreign", "cancel_unknown",
+                           "replies_judged", "listings_judged", "foreign_listing_requests", "table_snapshots", "spawns", "max_table"], 0)
+    judge(events, w["ops"], w["t_end"], lambda k, d: fails.append((k, d)), stats)
+    for k, d in fails[:10]:
+        print("now:", k, d[:300])
+    if not fails:
+        print("now: replies, table, listings and executions agree with the map model (%d replies, %d listings)" % (stats["replies_judged"], stats["listings_judged"]))
+    return 1 if fails else 0
